@@ -15,10 +15,11 @@ PUBLIC, USER, SO = 0, 1, 2
 
 
 class Obj:
-    __slots__ = ("label", "tok", "token", "private", "owner", "alive", "handles")
+    __slots__ = ("label", "tok", "token", "private", "owner", "alive", "handles", "origin")
 
-    def __init__(self, label, tok, token, private, owner):
+    def __init__(self, label, tok, token, private, owner, origin="create"):
         self.label, self.tok, self.token, self.private, self.owner = label, tok, token, private, owner
+        self.origin = origin          # how the object came to exist: part of the state key (the library may keep per-handle data that depends on it)
         self.alive = True
         self.handles = set()
 
@@ -90,6 +91,13 @@ class C11(CheckBase):
                         if m.login[t] == SO and private:
                             continue
                         acts.append(("create", i, token, private))
+                # objects also come into being as COPIES whose privacy / location differ from the source's: a public object copied to a private token
+                # object while the user is logged in (the new handle must die at logout like that of any private object)
+                if m.login[t] == USER and rw:
+                    for j, o in enumerate(m.objs):
+                        if o.alive and o.tok == t and o.handles and not o.private:
+                            acts.append(("copy-private-token", i, j))
+                            break
             acts.append(("find", i))
             for j, o in enumerate(m.objs):
                 if o.alive and o.tok == t and o.handles:
@@ -237,6 +245,21 @@ class C11(CheckBase):
                 ctx.count("create_ok")
             else:
                 ctx.count("create_refused")
+        elif k == "copy-private-token":
+            _, i, j = a
+            h, t, rw = m.sess[i]
+            src = m.objs[j]
+            label = b"obj-%04d" % m.nobj
+            r = p.CopyObject(h, sorted(src.handles)[0], [(C.CKA_LABEL, label), (C.CKA_TOKEN, True), (C.CKA_PRIVATE, True)])
+            if r["rv"] == 0:
+                self.new_handle(m, r["h"], "o", a)
+                o = Obj(label, t, True, True, h, origin="copy-of-public")
+                o.handles.add(r["h"])
+                m.objs.append(o)
+                m.nobj += 1
+                ctx.count("copy_ok")
+            else:
+                ctx.count("copy_refused")
         elif k == "find":
             h, t, rw = m.sess[a[1]]
             r = p.FindAll(h)
@@ -274,7 +297,7 @@ class C11(CheckBase):
 
     def key(self, ctx, m):
         sidx = {s[0]: i for i, s in enumerate(m.sess)}
-        objs = tuple((o.tok, o.token, o.private, sidx.get(o.owner, -1) if not o.token else -1, len(o.handles)) for o in m.objs if o.alive)
+        objs = tuple((o.tok, o.token, o.private, sidx.get(o.owner, -1) if not o.token else -1, len(o.handles), o.origin) for o in m.objs if o.alive)
         dead_s = min(2, len(m.issued_s - m.live_s()))
         dead_o = min(2, len(m.issued_o - m.live_o()))
         return (tuple(sorted(m.login.items())), tuple((t, rw) for h, t, rw in m.sess), objs, dead_s, dead_o)
